@@ -346,7 +346,11 @@ class HierDictDocument(DictDocument):
                 continue
 
             mo = member_attrs.max_occurs
-            if mo > 1:
+            if mo > 1 and v is None:
+                # positional documents (lists) can't omit a member
+                subinst = None
+
+            elif mo > 1:
                 subinst = getattr(inst, k, None)
                 if subinst is None:
                     subinst = []
